@@ -25,6 +25,23 @@ var mapRanges = []mapRange{
 	{"internal/db/schema_id.go", "getSchemaSets", "schemaSetsByID", 1},
 }
 
+// schedMapRanges are map iterations inside code that runs under the cooperative scheduler: their order
+// must be the same in every execution of one schedule (replay determinism), so they are visited in
+// ascending key order (vsched.RangeMap without a chooser). The orders themselves are not explored.
+var schedMapRanges = []mapRange{
+	{"event/channel_bus.go", "handleChannel", "b.subs", 1},
+	{"event/channel_bus.go", "handleChannel", "b.events[WildCardName]", 1},
+	{"event/channel_bus.go", "handleChannel", "b.events[t.Name]", 1},
+	{"net/peer.go", "Close", "p.server.conns", 1},
+	{"net/peer.go", "pushLogToReplicators", "reps", 1},
+	{"net/server.go", "removeAllPubsubTopics", "s.topics", 1},
+	{"net/server.go", "updateReplicators", "s.replicators", 1},
+	{"net/server.go", "updateReplicators", "collectionIDs", 1},
+	{"net/p2p_replicator.go", "DeleteReplicator", "storedCollectionIDs", 1},
+	{"internal/db/merge.go", "executeMerge", "mp.docIDs", 1},
+	{"internal/db/merge.go", "tryFetchMissingBlocksAndMerge", "mp.missingEncryptionBlocks", 1},
+}
+
 // schedFiles are rewritten for the scheduler build; value = channel expressions ranged over.
 var schedFiles = map[string][]string{
 	"internal/datastore/concurrent_txn.go": nil,
@@ -123,6 +140,7 @@ func main() {
 		files[r.File] = true
 	}
 	if *mode == "sched" {
+		mapRanges = append(mapRanges, schedMapRanges...)
 		for f := range schedFiles {
 			files[f] = true
 		}
